@@ -10,10 +10,20 @@ associate left, parentheses override.  The meaning is a boolean function of the 
 namespace SigmaVerif.CondSpec
 open SigmaVerif.Cond
 
+/-- the three spellings of a selector's quantifier -/
+inductive QW | one | any | all
+deriving Repr, DecidableEq
+
+def QW.quant : QW → Quant
+  | .one => .any | .any => .any | .all => .all
+
+def QW.text : QW → Str
+  | .one => "1".toList | .any => "any".toList | .all => "all".toList
+
 /-- binary source expressions, as a rule author writes them -/
 inductive E
   | id (n : Str)
-  | sel (q : Quant) (pat : Str)
+  | sel (q : QW) (pat : Str)
   | not (e : E)
   | and (a b : E)
   | or (a b : E)
@@ -35,8 +45,10 @@ def selects (pat name : Str) : Bool :=
 /-- the boolean function a condition spells, over the rule's detection names `dets` -/
 def E.sem (dets : List Str) (ρ : Str → Bool) : E → Bool
   | .id n => ρ n
-  | .sel .any pat => (dets.filter (selects pat)).any ρ
-  | .sel .all pat => (dets.filter (selects pat)).all ρ
+  | .sel q pat =>
+    match q.quant with
+    | .any => (dets.filter (selects pat)).any ρ
+    | .all => (dets.filter (selects pat)).all ρ
   | .not e => !(e.sem dets ρ)
   | .and a b => a.sem dets ρ && b.sem dets ρ
   | .or a b => a.sem dets ρ || b.sem dets ρ
@@ -48,6 +60,50 @@ def E.defined (dets : List Str) : E → Bool
   | .not e => e.defined dets
   | .and a b => a.defined dets && b.defined dets
   | .or a b => a.defined dets && b.defined dets
+
+/-! ## Canonical printer: single spaces, parentheses exactly where precedence requires -/
+
+def paren (b : Bool) (s : Str) : Str := if b then s else '(' :: s ++ [')']
+
+/-- `ctx` = loosest operator level admitted without parentheses (0 operand/NOT, 1 AND, 2 OR);
+binary operators associate left, so the right operand is printed one level tighter. -/
+def pp (ctx : Nat) : E → Str
+  | .id n => n
+  | .sel q pat => q.text ++ " of ".toList ++ pat
+  | .not e => "not ".toList ++ pp 0 e
+  | .and a b => paren (decide (1 ≤ ctx)) (pp 1 a ++ " and ".toList ++ pp 0 b)
+  | .or a b => paren (decide (2 ≤ ctx)) (pp 2 a ++ " or ".toList ++ pp 1 b)
+
+/-- a detection name the grammar can spell: non-empty, identifier characters only, and not one of
+the three operator words -/
+def wfName (g : Grammar) (n : Str) : Bool :=
+  !n.isEmpty && n.all g.identChars.contains &&
+  n != g.kwNot && n != g.kwAnd && n != g.kwOr
+
+def wfPat (g : Grammar) (p : Str) : Bool := !p.isEmpty && p.all g.patChars.contains
+
+def E.wf (g : Grammar) : E → Bool
+  | .id n => wfName g n
+  | .sel _ p => wfPat g p
+  | .not e => e.wf g
+  | .and a b => a.wf g && b.wf g
+  | .or a b => a.wf g && b.wf g
+
+/-- meaning of a *parse tree* (n-ary nodes), selectors read by the specification's `selects` -/
+def semPT (dets : List Str) (ρ : Str → Bool) : PT → Bool
+  | .id n => ρ n
+  | .sel .any pat => (dets.filter (selects pat)).any ρ
+  | .sel .all pat => (dets.filter (selects pat)).all ρ
+  | .not p => !(semPT dets ρ p)
+  | .and ps => semPTAll dets ρ ps
+  | .or ps => semPTAny dets ρ ps
+where
+  semPTAll (dets : List Str) (ρ : Str → Bool) : List PT → Bool
+    | [] => true
+    | p :: ps => semPT dets ρ p && semPTAll dets ρ ps
+  semPTAny (dets : List Str) (ρ : Str → Bool) : List PT → Bool
+    | [] => false
+    | p :: ps => semPT dets ρ p || semPTAny dets ρ ps
 
 /-! ## Word-level reader -/
 
@@ -71,8 +127,8 @@ def isKw (w : Str) : Bool :=
 
 def allIn (cs : List Char) (w : Str) : Bool := w.all cs.contains
 
-def quantWord (w : Str) : Option Quant :=
-  if w == "1".toList || w == "any".toList then some .any
+def quantWord (w : Str) : Option QW :=
+  if w == "1".toList then some .one else if w == "any".toList then some .any
   else if w == "all".toList then some .all else none
 
 /-- operand: selector, name, or parenthesised expression; `f` is fuel (token count suffices) -/
